@@ -67,6 +67,7 @@ class atom(boolean.AndRestriction):
         "cpvstr",
         "op",
         "blocks",
+        "blocks_strongly",
         "negate_vers",
         "use",
         "slot",
@@ -300,8 +301,10 @@ class atom(boolean.AndRestriction):
         elif self.version is not None:
             raise errors.MalformedAtom(orig_atom, "versioned atom requires an operator")
 
-        self._hash = hash(orig_atom)
         self.negate_vers = negate_vers
+        # hash exactly what __eq__ compares; the original string can differ for
+        # equal atoms (order of the use deps)
+        self._hash = hash(tuple(getattr(self, x) for x in self.__attr_comparison__))
 
     __getattr__ = klass.GetAttrProxy("_cpv")
     __dir__ = klass.DirProxy("_cpv")
@@ -471,11 +474,25 @@ class atom(boolean.AndRestriction):
         if c:
             return c
 
+        c = cmp(f(self.subslot), f(other.subslot))
+        if c:
+            return c
+
+        c = cmp(f(self.slot_operator), f(other.slot_operator))
+        if c:
+            return c
+
         c = cmp(self.use, other.use)
         if c:
             return c
 
-        return cmp(self.repo_id, other.repo_id)
+        c = cmp(self.repo_id, other.repo_id)
+        if c:
+            return c
+
+        # same version spelled differently (1.0 vs 1.00, -r0); such atoms are not
+        # equal, so order them by their spelling
+        return cmp(self.cpvstr, other.cpvstr)
 
     no_usedeps = klass.alias_attr("get_atom_without_use_deps")
 
